@@ -61,7 +61,7 @@ def file_of_ops(ops):
     return out
 
 
-def judge(proj, rec, box, cfg, built, expected, k, mode, sync=True):
+def judge(proj, rec, box, cfg, built, expected, k, mode, sync=True, last_open=None):
     v = []
     ops = rec.shim or []
     fo = file_of_ops(ops)
@@ -91,8 +91,10 @@ def judge(proj, rec, box, cfg, built, expected, k, mode, sync=True):
         # the final summary line is printed after the last file has been dealt with and the pass has been declared complete
         summary_n = next((o["n"] for o in ops if o["kind"] == "stdio" and "Total missing references (all files)" in (o.get("path2") or "")), None)
         complete_tree = proj.label.startswith("t_complete")
-        if rec.rc == 0 and sync and not before_handlers and complete_tree and summary_n is not None and k >= summary_n:
-            pass    # the signal came with (or after) the run's final summary line: the check had finished, nothing was left to do
+        if rec.rc == 0 and sync and not before_handlers and complete_tree and summary_n is not None and k >= summary_n \
+                and (last_open is None or k > last_open):
+            pass    # the signal came with (or after) the run's final summary line and after the last source file the uninterrupted
+            #         run opens: the check had finished, nothing was left to do
         elif rec.rc == 0 and (sync and not before_handlers):
             # "an interrupted --check never passes", whether or not the tree has statements without reference
             v.append(("interrupted-check-exited-0", {"tree_complete": not any(s != "original" for s in states.values()) and proj.label.startswith("t_complete")}))
@@ -131,6 +133,7 @@ def work(job):
     built, pi, proj, expected, k, signame, mode = job[:7]
     second = job[7] if len(job) > 7 else None
     faultrule = job[8] if len(job) > 8 else None
+    last_open = job[9] if len(job) > 9 else None
     res = {"evaluations": 1, "nontrivial": [], "violations": [], "samples": [], "inconclusive": {}, "counters": {}}
     rules = "n=%d,act=sig:%d" % (k, SIGS[signame])
     if faultrule:
@@ -153,7 +156,7 @@ def work(job):
         if rec.panicked():
             res["inconclusive"]["run-panicked (C17's business)"] = 1
             return res
-        v, info = judge(proj, rec, box, cfg, built, expected, k, mode)
+        v, info = judge(proj, rec, box, cfg, built, expected, k, mode, last_open=last_open)
     phase = info.get("phase") or "?"
     res["nontrivial"].append("%s|%d|%s|%s|%s" % (proj.label, k, signame, mode, second))
     res["counters"]["fired_%s_%s" % (signame, mode)] = 1
@@ -227,9 +230,11 @@ def main(tier):
                 wr = [o["n"] for o in ops if o["kind"] == "write"]
                 keep |= set(wr[:10]) | set(wr[-10:]) | set(rnd.sample(wr, min(len(wr), 30)))
                 ks = sorted(keep)
+            # the last source file the uninterrupted run opens: a stop request before that point interrupts work in progress
+            last_open = max([o["n"] for o in ops if fault.phase_of(o) == "src-read-open"], default=None)
             for k in ks:
                 for s in SIGS:
-                    jobs.append((built, pi, proj, expected, k, s, mode))
+                    jobs.append((built, pi, proj, expected, k, s, mode, None, None, last_open))
             if proj.label == "t_head_needs_tail_complete" and mode == "edit":
                 # the first file's rename fails (EXDEV / EACCES), then the stop request arrives at each later operation
                 ren = next((o["n"] for o in ops if o["kind"] == "rename" and "Breadlog.lock" not in (o["path"] or "")), None)
@@ -283,9 +288,8 @@ def replay_witness(w, ck=None, built=None):
     ps = projects(w.get("tier", "quick"), w.get("seed", 0))
     proj = ps[c["project"]]
     ops, after, rec, expected, lock = fault.clean_reference(built, proj, check=(c["mode"] == "check"), stdio_ops=True)
-    job = (built, c["project"], proj, expected, c["k"], c["sig"], c["mode"])
-    if c.get("second") or c.get("faultrule"):
-        job = job + (tuple(c["second"]) if c.get("second") else None, c.get("faultrule"))
+    last_open = max([o["n"] for o in ops if fault.phase_of(o) == "src-read-open"], default=None)
+    job = (built, c["project"], proj, expected, c["k"], c["sig"], c["mode"], tuple(c["second"]) if c.get("second") else None, c.get("faultrule"), last_open)
     r = work(job)
     return bool(r["violations"])
 
